@@ -537,7 +537,7 @@ func (f Float) CompareSmallInt(other SmallInt) Value {
 	if f.IsNaN() {
 		return Nil
 	}
-	return SmallInt(f.Cmp(Float(other))).ToValue()
+	return SmallInt(-CmpInt64Float64(int64(other), float64(f))).ToValue()
 }
 
 func (f Float) CompareInt(other Value) Value {
@@ -551,7 +551,7 @@ func (f Float) CompareBigInt(other *BigInt) Value {
 	if f.IsNaN() {
 		return Nil
 	}
-	return SmallInt(f.Cmp(other.ToFloat())).ToValue()
+	return SmallInt(-CmpBigIntFloat64(other.ToGoBigInt(), float64(f))).ToValue()
 }
 
 // Check whether f is greater than other and return an error
@@ -598,7 +598,7 @@ func (f Float) GreaterThanFloat(other Float) bool {
 }
 
 func (f Float) GreaterThanSmallInt(other SmallInt) bool {
-	return f > Float(other)
+	return !f.IsNaN() && CmpInt64Float64(int64(other), float64(f)) < 0
 }
 
 func (f Float) GreaterThanInt(other Value) bool {
@@ -609,8 +609,7 @@ func (f Float) GreaterThanInt(other Value) bool {
 }
 
 func (f Float) GreaterThanBigInt(other *BigInt) bool {
-	oFloat := other.ToFloat()
-	return f > oFloat
+	return !f.IsNaN() && CmpBigIntFloat64(other.ToGoBigInt(), float64(f)) < 0
 }
 
 // Check whether f is greater than or equal to other and return an error
@@ -657,7 +656,7 @@ func (f Float) GreaterThanEqualFloat(other Float) bool {
 }
 
 func (f Float) GreaterThanEqualSmallInt(other SmallInt) bool {
-	return f >= Float(other)
+	return !f.IsNaN() && CmpInt64Float64(int64(other), float64(f)) <= 0
 }
 
 func (f Float) GreaterThanEqualInt(other Value) bool {
@@ -668,8 +667,7 @@ func (f Float) GreaterThanEqualInt(other Value) bool {
 }
 
 func (f Float) GreaterThanEqualBigInt(other *BigInt) bool {
-	oFloat := other.ToFloat()
-	return f >= oFloat
+	return !f.IsNaN() && CmpBigIntFloat64(other.ToGoBigInt(), float64(f)) <= 0
 }
 
 // Check whether f is less than other and return an error
@@ -716,7 +714,7 @@ func (f Float) LessThanFloat(other Float) bool {
 }
 
 func (f Float) LessThanSmallInt(other SmallInt) bool {
-	return f < Float(other)
+	return !f.IsNaN() && CmpInt64Float64(int64(other), float64(f)) > 0
 }
 
 func (f Float) LessThanInt(other Value) bool {
@@ -727,8 +725,7 @@ func (f Float) LessThanInt(other Value) bool {
 }
 
 func (f Float) LessThanBigInt(other *BigInt) bool {
-	oFloat := other.ToFloat()
-	return f < oFloat
+	return !f.IsNaN() && CmpBigIntFloat64(other.ToGoBigInt(), float64(f)) > 0
 }
 
 // Check whether f is less than or equal to other and return an error
@@ -775,7 +772,7 @@ func (f Float) LessThanEqualFloat(other Float) bool {
 }
 
 func (f Float) LessThanEqualSmallInt(other SmallInt) bool {
-	return f <= Float(other)
+	return !f.IsNaN() && CmpInt64Float64(int64(other), float64(f)) >= 0
 }
 
 func (f Float) LessThanEqualInt(other Value) bool {
@@ -786,8 +783,7 @@ func (f Float) LessThanEqualInt(other Value) bool {
 }
 
 func (f Float) LessThanEqualBigInt(other *BigInt) bool {
-	oFloat := other.ToFloat()
-	return f <= oFloat
+	return !f.IsNaN() && CmpBigIntFloat64(other.ToGoBigInt(), float64(f)) >= 0
 }
 
 // Check whether f is equal to other
